@@ -661,6 +661,13 @@ func (ndb *nodeDB) DeleteVersionsFrom(fromVersion int64) error {
 	}
 
 	// Delete the nodes for new format
+	if legacyLatestVersion > 0 && fromVersion <= legacyLatestVersion+1 {
+		// No new-format version survives this rollback, so every new-format record is garbage -
+		// including legacy roots that commits without writes re-stored under their own (lower)
+		// legacy node version. Left behind, such a record is taken for the latest version on the
+		// next start.
+		fromVersion = 1
+	}
 	if err = ndb.traverseRange(nodeKeyPrefixFormat.KeyInt64(fromVersion), nodeKeyPrefixFormat.KeyInt64(latest+1), func(k, _ []byte) error {
 		return ndb.batch.Delete(k)
 	}); err != nil {
